@@ -30,6 +30,15 @@ func main() {
 	if only == "" || only == "handshake" {
 		phaseHandshake(r)
 	}
+	if only == "" || only == "mconn" {
+		phaseMconn(r)
+	}
+	if only == "" || only == "stack" {
+		phaseStack(r)
+	}
+	if only == "" || only == "peer" {
+		phasePeer(r)
+	}
 	fmt.Println("done")
 	r.Finish()
 }
